@@ -26,6 +26,7 @@ from .common import *  # noqa
 from symx.solver import explore, prove_zero, prove_formula
 from symx import harness as H
 from symx import shim as _shim
+from symx.val import EngineError
 
 MOD = "harness.C19"
 
@@ -76,6 +77,52 @@ def zeq(a, b):
 def zand(xs):
     xs = list(xs)
     return z3.And(xs) if xs else z3.BoolVal(True)
+
+
+# ---------------------------------------------------------------------------
+# deciding with bounded replay effort (a replay = one clean interpreter importing eko, ~10 s)
+# ---------------------------------------------------------------------------
+class Decider:
+    """Wrapper around CaseLog.decide: per case, one replayed counterexample per key and at most `max_replays`
+    replay processes; the model point and a few sampler points are tried inside a single replay process."""
+
+    def __init__(self, log, max_replays=3, nextra=4):
+        self.log = log
+        self.hit = set()
+        self.replays = 0
+        self.max_replays = max_replays
+        self.nextra = nextra
+
+    def __call__(self, verdict, key, replay, sampler=None, candidates=()):
+        log = self.log
+        if verdict.holds:
+            log.ok(verdict)
+            return True
+        if key in self.hit or self.replays >= self.max_replays:
+            log.obligations.append({"case": log.case, "what": verdict.what, "status": verdict.status, "time_s": round(verdict.time, 4),
+                                    "residual_terms": verdict.nterms, "note": "not replayed (same key already reproduced, or replay budget spent)"})
+            if key not in self.hit:
+                log.inconclusive.append("%s/%s: solver answered %s; replay budget of the case spent" % (log.case, verdict.what, verdict.status))
+            return False
+        self.replays += 1
+        extra = list(candidates) + ([sampler(log.rng) for _ in range(self.nextra)] if sampler is not None else [])
+        mod, fn, kw = replay
+        nv = len(log.violations)
+        log.decide(verdict, key=key, replay=(MOD, "replay_multi", {"mod": mod, "fn": fn, "extra": extra, "kw": kw}), candidates=[{}] if not verdict.model else ())
+        if len(log.violations) > nv:
+            self.hit.add(key)
+        return False
+
+
+def replay_multi(point, mod, fn, extra, kw):
+    import importlib
+
+    f = getattr(importlib.import_module(mod), fn)
+    for p in [point] + list(extra):
+        r = f(dict(p), **kw)
+        if r:
+            return r
+    return None
 
 
 # ---------------------------------------------------------------------------
@@ -182,6 +229,7 @@ def case_paths(log, shape, rel="<=", free=False, o_spec="generic", t_spec="gener
                m.is_downward_path, m.flavor_shift)
     from eko.quantities.heavy_quarks import MatchingScales
 
+    decide = Decider(log)
     if pairs is None:
         nfo = NFS if free else NFS + (None,)
         pairs = [(a, b) for a in nfo for b in nfo]
@@ -198,9 +246,9 @@ def case_paths(log, shape, rel="<=", free=False, o_spec="generic", t_spec="gener
             finite_below_inf(mu0, muf, *walls)
             W = list(walls)  # the harness' own copy: W[k-4] is the wall of quark k
 
-            def dec(goal, what, key, nontrivial=True):
+            def dec(goal, what, key):
                 v = prove_formula(goal, what + " " + tag)
-                log.decide(v, key=key, replay=(MOD, "replay_path", kw), sampler=_sampler)
+                decide(v, key, (MOD, "replay_path", kw), sampler=_sampler_free if free else _sampler)
 
             if via_ffns is not None:
                 atlas = m.Atlas.ffns(via_ffns, mu0)
@@ -358,6 +406,14 @@ def _bool(env, b):
 def _sampler(rng):
     ws = sorted(rnd(rng, 1, 200, 4) for _ in range(3))
     return {"w1": ws[0], "w2": ws[1], "w3": ws[2], "mu0": rnd(rng, 0.5, 250, 4), "muf": rnd(rng, 0.5, 250, 4)}
+
+
+def _sampler_free(rng):
+    p = _sampler(rng)
+    ws = [p["w1"], p["w2"], p["w3"]]
+    rng.shuffle(ws)
+    p.update(w1=ws[0], w2=ws[1], w3=ws[2])
+    return p
 
 
 # ---------------------------------------------------------------------------
